@@ -449,6 +449,10 @@ def do_isinstance(run, v, c):
         if isinstance(v, (SList, sx.PyList, SNum, SKey, SVal, SSet, STuple)):
             return SBool(False)
     if isinstance(v, SObj) and cname is not None:
+        imap = getattr(sx.CLASSES.get(v.cls), 'isinstance_map', None)
+        if imap and cname in imap:
+            from .spec import ObjView
+            return SBool(imap[cname](ObjView(v)))
         if cname in (CLASSES_MRO(v.cls)):
             return SBool(True)
         if cname in sx.CLASSES:
